@@ -29,6 +29,7 @@ RULE = (
     "non-trivial when (concurrent) at least one context switch happened between an operation's invoke and "
     "return, or (sequential) at least one eviction or a copy/pickle subject was used; distinct = distinct "
     "digest of (workload, switch trace)."
+    ' Sequential histories also store the identical object again, use unhashable keys (a plain list, and an unhashable object equal to a key in use: TypeError and an untouched cache are expected) and keep a live iterator while the cache is read.'
 )
 ASSUMPTIONS = [
     "GIL semantics: pre-emption at bytecode-instruction boundaries of LRUCache methods; C-level dict/deque operations are atomic",
@@ -56,6 +57,26 @@ def setup() -> None:
     T.neutralise_real_locks()
     T.install_threading_factories()
     _setup_done = True
+
+
+class UnhashableEq(list):
+    """Cannot be hashed, but compares EQUAL to one of the keys in use (like a set against a frozenset key or a
+    bytearray against bytes): a lookup by it fails with TypeError and must leave the cache exactly as it was."""
+
+    def __init__(self, like) -> None:
+        super().__init__()
+        self.like = like
+
+    def __eq__(self, other):
+        return other == self.like if not isinstance(other, UnhashableEq) else self.like == other.like
+
+    def __ne__(self, other):
+        return not self.__eq__(other)
+
+    __hash__ = None  # type: ignore[assignment]
+
+    def __repr__(self) -> str:
+        return f"UnhashableEq({self.like!r})"
 
 
 def _mk_cache(cap):
@@ -180,7 +201,8 @@ def _run_sequential(tape, out: Outcome) -> None:
             elif name == "unhashable":
                 # a key that cannot be hashed: the call fails with TypeError and leaves the cache exactly as it was
                 sub = tape.pick(["set", "getitem", "get", "del", "setdefault", "in"])
-                op = (sub, ["u"]) + ((0,) if sub in ("set", "setdefault") else ())
+                ukey = ["u"] if tape.draw(2) == 0 else UnhashableEq(tape.pick(KEYS))
+                op = (sub, ukey) + ((0,) if sub in ("set", "setdefault") else ())
                 name = sub
                 out.count("seq_unhashable_key_ops")
             elif name in ("set", "setdefault"):
